@@ -213,9 +213,18 @@ def main():
                 r = run(n, [], tier)
             except Exception as e:
                 r = {"error": str(e)}
-            allres[n] = {"tier": tier, "result": r}
-            print(n, {p: v.get("caught") for p, v in r.items() if isinstance(v, dict)})
-            json.dump(allres, open(path, "w"), indent=1)
+            # merge into the file as it is now (several matrix runs may be going on)
+            cur = {}
+            if os.path.exists(path):
+                try:
+                    cur = json.load(open(path))
+                except Exception:
+                    cur = {}
+            cur[n] = {"tier": tier, "result": r}
+            print(n, {p: v.get("caught") for p, v in r.items() if isinstance(v, dict)}, flush=True)
+            tmpf = path + ".tmp%d" % os.getpid()
+            json.dump(cur, open(tmpf, "w"), indent=1)
+            os.replace(tmpf, path)
         return 0
     print(__doc__)
     return 2
